@@ -742,6 +742,33 @@ def renderL {R : Type} (b : Backend R) : List RT → Option (List R)
 end
 
 
+/-! ### the invariant of constructed objects -/
+
+/-- two adjacent parts that `_merge_similar` merges -/
+def mergeable (p q : RT) : Bool := typeInfo p == typeInfo q && typeInfo p != .none
+
+def noAdjacentSimilar : List RT → Bool
+  | p :: q :: r => !mergeable p q && noAdjacentSimilar (q :: r)
+  | _ => true
+
+def isText : RT → Bool
+  | .node .text _ => true
+  | _ => false
+
+mutual
+/-- Normal form: what every object built through the constructors looks like – hereditarily, no
+part is empty, no part is a `Text`, no two adjacent parts have the same type info (unless they
+are symbols).  Decidable; `build_normal` shows every constructed object satisfies it, and every
+operation preserves it. -/
+def Normal : RT → Bool
+  | .str _ => true
+  | .sym _ => true
+  | .node _ ps => NormalL ps && noAdjacentSimilar ps
+def NormalL : List RT → Bool
+  | [] => true
+  | p :: ps => (len p != 0 && !isText p && Normal p) && NormalL ps
+end
+
 /-! ### operation histories -/
 
 /-- One operation applied to the current text (operands are objects, i.e. already built). -/
